@@ -522,7 +522,10 @@ impl Eq for Fortune {}
 
 #[cfg(test)]
 mod tests {
+  #[cfg(not(feature = "verif"))]
   use std::sync::MutexGuard;
+  #[cfg(feature = "verif")]
+  use crate::tyme::verif::MutexGuard;
   use crate::tyme::eightchar::{CHILD_LIMIT_PROVIDER, ChildLimit};
   use crate::tyme::eightchar::provider::{ChildLimitProvider, DefaultChildLimitProvider};
   use crate::tyme::enums::Gender;
